@@ -130,7 +130,10 @@ sp_ctrsv(char *uplo, char *trans, char *diag, SuperMatrix *L,
 	
 	if ( lsame_(uplo, "L") ) {
 	    /* Form x := inv(L)*x */
-    	    if ( L->nrow == 0 ) return 0; /* Quick return */
+    	    if ( L->nrow == 0 ) { /* Quick return */
+		SUPERLU_FREE(work);
+		return 0;
+	    }
 	    
 	    for (k = 0; k <= nsuper; k++) {
 		fsupc = L_FST_SUPC(k);
@@ -190,7 +193,10 @@ sp_ctrsv(char *uplo, char *trans, char *diag, SuperMatrix *L,
 	} else {
 	    /* Form x := inv(U)*x */
 	    
-	    if ( U->nrow == 0 ) return 0; /* Quick return */
+	    if ( U->nrow == 0 ) { /* Quick return */
+		SUPERLU_FREE(work);
+		return 0;
+	    }
 	    
 	    for (k = nsuper; k >= 0; k--) {
 	    	fsupc = L_FST_SUPC(k);
@@ -241,7 +247,10 @@ sp_ctrsv(char *uplo, char *trans, char *diag, SuperMatrix *L,
 	
 	if ( lsame_(uplo, "L") ) {
 	    /* Form x := inv(L')*x */
-    	    if ( L->nrow == 0 ) return 0; /* Quick return */
+    	    if ( L->nrow == 0 ) { /* Quick return */
+		SUPERLU_FREE(work);
+		return 0;
+	    }
 	    
 	    for (k = Lstore->nsuper; k >= 0; --k) {
 	    	fsupc = L_FST_SUPC(k);
@@ -279,7 +288,10 @@ sp_ctrsv(char *uplo, char *trans, char *diag, SuperMatrix *L,
 	    }
 	} else {
 	    /* Form x := inv(U')*x */
-	    if ( U->nrow == 0 ) return 0; /* Quick return */
+	    if ( U->nrow == 0 ) { /* Quick return */
+		SUPERLU_FREE(work);
+		return 0;
+	    }
 	    
 	    for (k = 0; k <= nsuper; k++) {
 	    	fsupc = L_FST_SUPC(k);
@@ -319,7 +331,10 @@ sp_ctrsv(char *uplo, char *trans, char *diag, SuperMatrix *L,
 	
 	if ( lsame_(uplo, "L") ) {
 	    /* Form x := conj(inv(L'))*x */
-    	    if ( L->nrow == 0 ) return 0; /* Quick return */
+    	    if ( L->nrow == 0 ) { /* Quick return */
+		SUPERLU_FREE(work);
+		return 0;
+	    }
 	    
 	    for (k = Lstore->nsuper; k >= 0; --k) {
 	    	fsupc = L_FST_SUPC(k);
@@ -358,7 +373,10 @@ sp_ctrsv(char *uplo, char *trans, char *diag, SuperMatrix *L,
 	    }
 	} else {
 	    /* Form x := conj(inv(U'))*x */
-	    if ( U->nrow == 0 ) return 0; /* Quick return */
+	    if ( U->nrow == 0 ) { /* Quick return */
+		SUPERLU_FREE(work);
+		return 0;
+	    }
 	    
 	    for (k = 0; k <= Lstore->nsuper; k++) {
 	    	fsupc = L_FST_SUPC(k);
